@@ -41,4 +41,24 @@ def units(ctx):
     from contracts import evalglue as _eg
     from vlib.pyvc.unit import contract_unit as _cu
     us += [_cu(c, world_setup=_eg.setup_nodes) for c in _eg.node_contracts()]
+    # variable lookup through whole context forests (null bindings shadow,
+    # nearest layer first): bounded, and the source of real failing inputs
+    from props._common import bounded_unit
+    us.append(bounded_unit(
+        'bounded:c17-forests', 'c17_forest.py',
+        'BOUNDED: 1500 random context forests x every variable / function '
+        'name against the reference layer model'))
     return us
+
+
+def post(ctx, results):
+    from props._common import attach_replay
+    b = [o for r in results for o in r['obligations']
+         if o['name'] == 'bounded:c17-forests']
+    rep = b[0].get('replay') if b else None
+    if rep and rep.get('status') == 'failed':
+        attach_replay(results, lambda o: not o.get('bounded') and 'Context'
+                      in o['name'] and o.get('kind') in (
+                          'post', 'raises', 'inv-step', 'inv-init', 'frame'),
+                      rep)
+    return results
